@@ -88,6 +88,7 @@ def check(ctx: Ctx) -> None:
     # stop() reads the running registry: a task overwritten by another one with the same id can never be stopped (id discipline shared with C11)
     from . import naming as _N
     _N.r_id_discipline(ctx, "R14.9")
+    K.r_no_swallow(ctx, "R14.10")
 def id_value_steers(ctx: Ctx, f):
     """(test step, variable) when a test of stop() - or of a helper spliced into it - compares by order, or after arithmetic, a value
     that is an id drawn from the running registry; None otherwise.  Positive rule, independent of how the list is built."""
